@@ -61,7 +61,7 @@ PROPS = {
         'assumptions': ['the hand-written Model/Cpu.lean mirrors the Rust handlers (checked by the correspondence run on every case); only its dispatch tables are regenerated from source'],
     },
     'C06': {
-        'lean': ['H8.Props.C06'],
+        'lean': ['H8.Props.C06', 'H8.Lemmas.BusPure', 'H8.Props.C06H'],
         'gen': ['consts', 'buscost', 'busmap', 'dispatch'],
         'runs': [{'mode': 'step', 'shards': 16}],
         'rule': 'single-step cases on the real Cpu (fetch+exec through the verif hook) from a tagged background memory (every byte = hash of its address) with the full register file, CCR, PC, cost and the complete delta of all five stores compared: per form of spec/isa.tbl every combination of the register fields (x2), all 256 initial CCR values, every value of immediate/bit/condition fields, seeded random instances with boundary-value register files and operand addresses at both ends of on-chip RAM, DRAM and the vector area; TRAPA #1-#3 and RTE with all CCR values, vector contents with non-zero top byte, interrupt entry through the controller hooks (n=0 cases). distinct non-trivial = distinct (form, first instruction bytes, resulting register file) triples of in-domain cases.',
@@ -114,7 +114,7 @@ PROPS = {
         'gen': ['consts', 'busmap', 'dispatch', 'buscost'],
         'runs': [{'mode': 'run', 'shards': 16, 'profile': 'release'}, {'mode': 'run', 'shards': 16, 'profile': 'checked'},
                  {'mode': 'bin', 'shards': 8, 'profile': 'release'}],
-        'rule': 'whole Cpu::run executions in-process (channel-backed socket, captured messages): generated guest programs — straight-line blocks, counted and nested loops, JSR/BSR/RTS calls, port writes, console output through the write system call, programs that reprogram the bus controller, programs that must fail (unimplemented opcode, unmapped access), the 8-bit timer counting / interrupting across the run — with loop counts tuned by dry runs so that the total lands just below, exactly on (the last instruction crosses) and beyond the 1st-3rd multiple of 2,000,000; final total, sync message sequence, registers, PC, memory, messages, timer counter compared with the Model (exact) and with the Spec run (instruction by instruction, charged = 3 x bus-cycle cost, timer advanced one state at a time); selected cases are run twice, the second time with 24 spinning host threads, and must be identical. Run in the release profile and with overflow checks. Mode bin: the same kinds of programs wrapped into ELF files (one PT_LOAD, .stack, .symtab with ___exit) and run by the emulator\'s own release binary built from /repo (main.rs argument parsing, elf::load, Cpu::run, -m message printing): outcome, state total and exit code from its log and the printed message sequence compared with the model of run() started from the state the real loader produces in-process.',
+        'rule': 'whole Cpu::run executions in-process (channel-backed socket, captured messages): generated guest programs — straight-line blocks, counted and nested loops, JSR/BSR/RTS calls, port writes, console output through the write system call, programs that reprogram the bus controller, programs that must fail (unimplemented opcode, unmapped access), the 8-bit timer counting / interrupting across the run — with loop counts tuned by dry runs so that the total lands just below, exactly on (the last instruction crosses) and beyond the 1st-3rd multiple of 2,000,000; final total, sync message sequence, registers, PC, memory, messages, timer counter compared with the Model (exact) and with the Spec run (instruction by instruction, charged = 3 x bus-cycle cost, timer advanced one state at a time); selected cases are run twice, the second time with 6 spinning host threads per shard (96 on 16 cores), and must be identical. Run in the release profile and with overflow checks. Mode bin: the same kinds of programs wrapped into ELF files (one PT_LOAD, .stack, .symtab with ___exit) and run by the emulator\'s own release binary built from /repo (main.rs argument parsing, elf::load, Cpu::run, -m message printing): outcome, state total and exit code from its log and the printed message sequence compared with the model of run() started from the state the real loader produces in-process.',
         'assumptions': ['wall-clock pacing (spin_sleep) is not modelled: it reads and writes no emulator state; its independence is checked by the reruns under host load',
                         'the factor 3 ("temporary speed adjustment") is taken as part of the amount charged'],
     },
